@@ -73,6 +73,15 @@ Theorem c02_kak_exact : forall (a b c : R) (uenv : nat -> list (list R)),
       (mmul RRing (ptm2 C [(c1 C, Uweyl C)]) (kron RRing (uenv 2%nat) (uenv 0%nat))).
 Proof. exact kak_exact. Qed.
 
+(* sanity of the specifications: Move as defined (reset qubit 1; swap) has the Kraus operators used
+   above; the only hand-written PTMs (RY(±π/4), whose half angle is not in Q[c,s,r]) agree with the PTM of
+   the RY unitary over Q[r][cos π/8]; the closed-form rotation PTMs agree with the unitaries *)
+Theorem c02_spec_sanity :
+  meqb K (mmul K (ptm_unitary2 K U_swap) (kron K (ptm_op K nou OReset) (ident K 4%nat))) (ptm_move K) = true /\
+  (meqb (K8 true) (ptm_op (K8 true) nou (ORY QuartPiP)) (ptm_op (K8 true) nou (ORY Th2P)) = true /\
+   meqb (K8 false) (ptm_op (K8 false) nou (ORY QuartPiM)) (ptm_op (K8 false) nou (ORY Th2P)) = true).
+Proof. exact (conj move_as_defined ry_quarter_ok). Qed.
+
 (* refusals: unregistered and not a two-qubit gate; unbound parameter; to_matrix failure —
    and nothing else is refused *)
 Theorem c02_refusal :
@@ -125,6 +134,7 @@ Print Assumptions c02_u_from_thetavec.
 Print Assumptions c02_kak_dressing.
 Print Assumptions c02_kak_model.
 Print Assumptions c02_kak_exact.
+Print Assumptions c02_spec_sanity.
 Print Assumptions c02_refusal.
 Print Assumptions c02_registry.
 Print Assumptions c02_source_tables.
